@@ -19,7 +19,11 @@ class Hist1Prop:
     ASSUMPTIONS: list = []
 
     def run_impl(self, case):
-        outs, log = impl1.run(case)
+        if case.get("kind") == "histn":
+            from .. import implnd
+            outs, log = implnd.run(case)
+        else:
+            outs, log = impl1.run(case)
         return {"outs": outs, "log": log}
 
     def model_case(self, case, io):
